@@ -17,7 +17,7 @@ RULE = ("reader: random acyclic bench line lists (1-4 INPUT, 0-2 DFF incl. DFF f
 EXPLANATION = ("line-AST reader/writer models mirrored on the construction API, proved to denote the bench equations (closed form), tied to io.py by "
                "regenerated tables and correspondence; the oracle evaluates the text's own equations against the circuit that was returned")
 SHARD = 40
-HASHSEEDS = {"quick": [0, 1], "thorough": [0, 1, 2, 3]}
+HASHSEEDS = {"quick": [0, 1], "thorough": [0, 1, 2]}
 
 GATE_NAMES = ["buf", "buff", "not", "and", "nand", "or", "nor", "xor", "xnor"]
 MULTI = ["and", "nand", "or", "nor", "xor", "xnor"]
@@ -223,7 +223,7 @@ def gen_systematic():
 
 
 def generate(rng, tier):
-    n = 110 if tier == "quick" else 1500
+    n = 110 if tier == "quick" else 800
     out = []
     for _ in range(n):
         lines = gen_lines(rng, tier)
@@ -384,9 +384,11 @@ LEVEL_TEXT = ("Line-AST level. Theorems (all gate names, operand lists, valuatio
               "gate-name alternation with BUFF and case folding is exactly the documented dialect; the node handed to Circuit.add for a gate line computes "
               "the gate over its operand list with multiplicities (parity cancellation proved for all lists: XOR(a,a)=0, XNOR(a,a)=1; idempotent gates for "
               "all lists); the closed form of the reader's result has exactly the declared inputs and outputs, every consistent valuation of it solves all "
-              "equations of the text, and each DFF line is a registered dff instance between its D and Q nets. Kept as unproved full statements and decided "
-              "per generated case in Coq: that the mirrored four-pass reader (construction API, reader's pass order) returns the closed form; that every "
-              "solution of the text extends to a consistent valuation; the writer/reader round trip for all set orders (constants included).")
+              "equations of the text and every solution extends to a consistent valuation, and each DFF line is a registered dff instance between its D and Q "
+              "nets; for every lint-clean blackbox-/pin-/x-free identifier-named circuit and every set order, the writer's line list is well-formed and its "
+              "closed-form reading is the circuit itself (constants included). Kept as the one unproved full statement and decided per generated case in "
+              "Coq: that the mirrored four-pass reader (construction API, reader's pass order) returns the closed form; the full reader and round-trip "
+              "theorems are proved under that hypothesis (_partial).")
 LEVEL_NOTE = ("Trusted: Coq kernel + vm_compute, std++, Base/Api.v as a model of Circuit.add/connect/add_blackbox (validated by C07), translator shapes "
               "for io.py (skeleton comparison, fail closed; the scan patterns are compared literally with the documented ones), the harness renderer "
               "and tokeniser. The character-level scanning layer (re.findall with the four patterns) is NOT modelled: it is tied by correspondence only, "
